@@ -1,0 +1,19 @@
+//go:build verif
+
+package types
+
+// Contracts for the deductive checker in /verif (comment-only; compiled only with -tags verif).
+
+/*@
+specfunc fits256(n int) bool = 0 - 115792089237316195423570985008687907853269984665640564039457584007913129639936 < n
+        && n < 115792089237316195423570985008687907853269984665640564039457584007913129639936
+
+func IsValidInt256
+    ensures bound: result == (i == nil || fits256(*i))
+
+// the sdk Int carries exactly the value of the big integer; values of more than 256 bits are refused
+func SafeNewIntFromBigInt
+    requires nonnil: i != nil
+    ensures ok: (result.1 == nil) == fits256(*i)
+    ensures value: result.1 == nil ==> result.0 == *i
+@*/
